@@ -1505,13 +1505,14 @@ impl Parser {
                 if self.peek(&TokenEnum::Semicolon) {
                     self.expect(&TokenEnum::Semicolon)?;
                     match self.tokens.peek().cloned() {
+                        // (usize has 32 bits in Garble, whatever the host platform)
                         Some(Token(
                             TokenEnum::UnsignedNum(
                                 n,
                                 UnsignedNumType::Unspecified | UnsignedNumType::Usize,
                             ),
                             _,
-                        )) => {
+                        )) if n <= u32::MAX as u64 => {
                             self.advance();
                             let meta_end = self.expect(&TokenEnum::RightBracket)?;
                             let meta = join_meta(meta, meta_end);
@@ -1584,13 +1585,14 @@ impl Parser {
             let (ty, _) = self.parse_type()?;
             self.expect(&TokenEnum::Semicolon)?;
             match self.tokens.peek().cloned() {
+                // (usize has 32 bits in Garble, whatever the host platform)
                 Some(Token(
                     TokenEnum::UnsignedNum(
                         n,
                         UnsignedNumType::Unspecified | UnsignedNumType::Usize,
                     ),
                     _,
-                )) => {
+                )) if n <= u32::MAX as u64 => {
                     self.advance();
                     let size = n as usize;
                     let meta_end = self.expect(&TokenEnum::RightBracket)?;
